@@ -5,7 +5,8 @@ EXTENDS Search, Frontier
 
 Idle == [nv |-> 0, E |-> <<>>, hd |-> <<>>, src |-> 0, dst |-> 0, dir |-> "fwd", wd |-> 1, wt |-> 0,
          rd |-> 1, rt |-> 1, sur |-> <<>>, acc |-> "none", delay |-> [i \in 1..8 |-> 0], ok |-> <<>>,
-         bad |-> {}, h |-> <<>>, itl |-> -1, szl |-> -1, init |-> <<0, 0>>, ties |-> TRUE]
+         bad |-> {}, h |-> <<>>, itl |-> -1, szl |-> -1, init |-> <<0, 0>>, ties |-> TRUE,
+         orient |-> "vertex", osrc |-> 0, odst |-> 0]
 
 ScnOf(ev) ==
    [nv |-> ev.nv,
@@ -16,7 +17,8 @@ ScnOf(ev) ==
     ok |-> [e \in DOMAIN ev.E |-> /\ (ev.allowed_on => \E i \in DOMAIN ev.allowed : ev.allowed[i] = ev.cls[e])
                                    /\ (ev.veh_on => VehicleOK(ev.vrestr[e], ev.veh))],     \* every model must permit the edge
     bad |-> {<<ev.bad[i][1], ev.bad[i][2]>> : i \in DOMAIN ev.bad},
-    h |-> ev.h, itl |-> ev.itl, szl |-> ev.szl, init |-> ev.init, ties |-> TRUE]
+    h |-> ev.h, itl |-> ev.itl, szl |-> ev.szl, init |-> ev.init, ties |-> TRUE,
+    orient |-> ev.orient, osrc |-> ev.osrc, odst |-> ev.odst]
 
 Abs(x) == IF x < 0 THEN -x ELSE x
 
